@@ -172,7 +172,11 @@ pub fn run_property(def: &'static PropDef, tier: Tier, seed: u64, cases_override
                                 st.samples.push(case.to_text(hbv::specs::specs_for(&case.kind)));
                             }
                         }
-                        let pn = plan_name(&case);
+                        let pn = if case.kind == "lay" {
+                            format!("{}:{}", ["table", "set", "map"][(case.h("coll") % 3) as usize], hbv::layouts::LAYOUT_NAMES[(case.h("layout") % hbv::layouts::N_LAYOUTS) as usize])
+                        } else {
+                            plan_name(&case)
+                        };
                         for name in label_names(def, out.labels) {
                             *st.labels.entry(name.to_string()).or_default() += 1;
                             *st.per_plan.entry(pn.clone()).or_default().entry(name.to_string()).or_default() += 1;
